@@ -269,6 +269,17 @@ func checkUnsignedGuards(c *Ctx, p *GoProg, fd *ast.FuncDecl, label string, min 
 			return true
 		}
 		id, ok := ast.Unparen(conv.Args[0]).(*ast.Ident)
+		subK := int64(0)
+		if !ok {
+			// int(v - K): the decrement written into the conversion; v must be known to be at least K here
+			if be, isSub := ast.Unparen(conv.Args[0]).(*ast.BinaryExpr); isSub && be.Op == token.SUB {
+				if vid, okv := ast.Unparen(be.X).(*ast.Ident); okv {
+					if k, okk := p.ConstInt(be.Y); okk && k >= 1 {
+						id, ok, subK = vid, true, k
+					}
+				}
+			}
+		}
 		if !ok {
 			c.Undecided(label+":next-guard:"+p.Str(call), p.Pos(call), "the length handed to Next is not of the form int(<unsigned variable>): its bound cannot be established")
 			return true
@@ -282,6 +293,32 @@ func checkUnsignedGuards(c *Ctx, p *GoProg, fd *ast.FuncDecl, label string, min 
 		}
 		guarded := false
 		signedOnly := ""
+		atLeast := int64(0) // what the dominating facts say about the variable's minimum
+		for _, ef := range fg.DominatingFacts(blk) {
+			for _, a := range atomsOf(ef) {
+				be, ok := ast.Unparen(a.E).(*ast.BinaryExpr)
+				if !ok {
+					continue
+				}
+				op := be.Op
+				if a.Neg {
+					op = negateOp(op)
+				}
+				lid, okl := ast.Unparen(be.X).(*ast.Ident)
+				k, okk := p.ConstInt(ast.Unparen(be.Y))
+				if !okl || p.ObjOf(lid) != obj || !okk {
+					continue
+				}
+				switch {
+				case op == token.GEQ && k > atLeast:
+					atLeast = k
+				case op == token.GTR && k+1 > atLeast:
+					atLeast = k + 1
+				case op == token.NEQ && k == 0 && atLeast < 1:
+					atLeast = 1
+				}
+			}
+		}
 		for _, ef := range fg.DominatingFacts(blk) {
 			for _, a := range atomsOf(ef) {
 				be, ok := ast.Unparen(a.E).(*ast.BinaryExpr)
@@ -373,6 +410,10 @@ func checkUnsignedGuards(c *Ctx, p *GoProg, fd *ast.FuncDecl, label string, min 
 				}
 				return true
 			})
+		}
+		if guarded && subK > 0 && atLeast < subK {
+			guarded = false
+			signedOnly = fmt.Sprintf("`%s` is not preceded by a test that the value is at least %d: a smaller value wraps around and int() makes it negative", p.Str(conv.Args[0]), subK)
 		}
 		msg := "the length handed to " + p.Str(call) + " comes from the input and is not bounded by an unsigned comparison with the remaining input"
 		if signedOnly != "" {
